@@ -120,10 +120,44 @@ TOL_EXC = {
 }
 
 
+def _acquires_empty(ir, kinds, upto, ret):
+    """some str-typed entry (the return entry if `ret`, else a parameter) holds the default '' when the hop kinds[upto] runs: it had
+    it from the start, or it had no default and an earlier hop gave it the zero value (class / argparse: the documented
+    normalisation; numpydoc / google: KF-RT-np-force-default, only after an entry that has a default)"""
+    es = [((ir.get("returns") or {}).get("return_type") or {})] if ret else list(ir["params"].values())
+    names = list(ir["params"].values())
+    for e in es:
+        if e.get("typ") not in ("str", "Optional[str]"):
+            continue
+        if e.get("default", None) == "" and isinstance(e.get("default"), str):
+            return True
+        if "default" not in e:
+            before = names if ret else names[:names.index(e)]
+            if any(k in ("class", "argparse") for k in kinds[:upto]):
+                return True
+            if any(k in ("numpydoc", "google") for k in kinds[:upto]) and any("default" in b for b in before):
+                return True
+    return False
+
+
+# chain-aware exception tolerances: id -> predicate(kinds, ir, exception type name)
+TOL_EXC_CHAIN = {
+    # numpydoc writes the '' default as a dangling 'Defaults to' and its own parser then evaluates the empty text: SyntaxError
+    "KF-RT-empty-str-default": lambda kinds, ir, exc: exc == "SyntaxError" and any(
+        k == "numpydoc" and _acquires_empty(ir, kinds, i, False) for i, k in enumerate(kinds)),
+    # emit.argparse_function does ast.parse(default).body[0] on a '' return default: IndexError
+    "KF-C09-empty-return-default": lambda kinds, ir, exc: exc == "IndexError" and any(
+        k == "argparse" and _acquires_empty(ir, kinds, i, True) for i, k in enumerate(kinds)),
+}
+
+
 def tolerated_exc(kinds, ir, exc, active):
     for kid in active:
         f = TOL_EXC.get(kid)
         if f is not None and any(f(k, ir, exc) for k in kinds):
+            return True
+        g = TOL_EXC_CHAIN.get(kid)
+        if g is not None and g(tuple(kinds), ir, exc):
             return True
     return False
 
